@@ -2,15 +2,17 @@
 # Zero-alarm sweep: runs every registered check (quick tier) under several VERIF_SEEDs with a
 # private output directory and reports every check/seed that exits non-zero.
 # usage: tools/sweep.sh "<seeds>" [check ids...]
+# env: SWEEP_TIER=quick|thorough (default quick), SWEEP_WALL_CAP=<seconds per check> (optional)
 cd "$(dirname "$0")/.." || exit 2
 SEEDS="${1:-1 2 3}"; shift
 CHECKS="${*:-$(./sim/target/release/lsmsim list 2>/dev/null || echo)}"
 OUT=$(mktemp -d /tmp/lsmsim-sweep.XXXXXX); cp known_findings.json "$OUT"/
 (cd sim && CARGO_NET_OFFLINE=true cargo build --release --offline >/dev/null 2>&1) || { echo "build failed"; exit 2; }
+echo "build done"
 [ -z "$CHECKS" ] && CHECKS=$(./sim/target/release/lsmsim list)
 bad=0
 for s in $SEEDS; do for c in $CHECKS; do
-  out=$(VERIF_SEED=$s LSMSIM_VERIF_DIR=$OUT ./sim/target/release/lsmsim check $c --tier quick 2>&1); code=$?
+  out=$(VERIF_SEED=$s LSMSIM_VERIF_DIR=$OUT ./sim/target/release/lsmsim check $c --tier ${SWEEP_TIER:-quick} ${SWEEP_WALL_CAP:+--wall-cap $SWEEP_WALL_CAP} 2>&1); code=$?
   line=$(echo "$out" | tail -1 | cut -c1-160)
   if [ $code -ne 0 ]; then bad=$((bad+1)); echo "ALARM seed=$s $c exit=$code"; echo "$out" | grep -E "^VIOLATION|HARNESS" | head -3 | cut -c1-600; mkdir -p replays-sweep; cp $OUT/replays/$c-*.json replays-sweep/ 2>/dev/null; fi
   echo "seed=$s $line"
